@@ -345,6 +345,13 @@ FILE_API = {'open', 'os.replace', 'os.rename', 'os.remove', 'os.unlink', 'os.ope
             'shutil.copy', 'shutil.copyfile', 'shutil.move', 'shutil.copyfileobj', 'Path', 'io.open', 'io.FileIO'}
 
 
+def _shape_target(name, ok, line=0, note=''):
+    # good: AtomicWriter(filename or self.filename, ...); known bad: the requested name is ignored (self.filename alone)
+    sh = smt.shape(name, ok, note.startswith('AtomicWriter(self.filename'), line, note, 'ast-effects')
+    sh.replay_fn = _witness
+    return sh
+
+
 def static_save(repo):
     """BSP.save touches the file system only through one `with AtomicWriter(<requested name>, is_bytes=True) as file`;
     the handle (and the DeferredWrites wrapper built from it) is used only inside that block and does not escape."""
@@ -354,15 +361,18 @@ def static_save(repo):
     withs = [n for n in ast.walk(fn) if isinstance(n, ast.With)
              and any(isinstance(i.context_expr, ast.Call) and ast.unparse(i.context_expr.func) == 'AtomicWriter'
                      for i in n.items)]
-    out.append(_res('save.uses_one_atomic_writer_block', len(withs) == 1, fn.lineno))
+    plain_open = any(isinstance(n, ast.Call) and ast.unparse(n.func) in ('open', 'io.open') for n in ast.walk(fn))
+    sh = smt.shape('save.uses_one_atomic_writer_block', len(withs) == 1, plain_open, fn.lineno, '', 'ast-effects')
+    sh.replay_fn = _witness
+    out.append(sh)
     if len(withs) != 1:
         return out
     w = withs[0]
     item = w.items[0]
     call = item.context_expr
-    out.append(_res('save.atomic_writer_targets_the_requested_file',
-                    bool(call.args) and ast.unparse(call.args[0]) == 'filename or self.filename', w.lineno,
-                    ast.unparse(call)))
+    out.append(_shape_target('save.atomic_writer_targets_the_requested_file',
+                             bool(call.args) and ast.unparse(call.args[0]) == 'filename or self.filename', w.lineno,
+                             ast.unparse(call)))
     handle = item.optional_vars.id if isinstance(item.optional_vars, ast.Name) else None
     out.append(_res('save.handle_is_bound_by_the_with', handle is not None, w.lineno))
     inside = {id(n) for n in ast.walk(w)}
